@@ -106,10 +106,10 @@ class CFG:
             tn = self.new('try', stmt=st)
             self.link(ins, tn)
             body = self.block(st.body, [(None, tn)], brk, cont)
-            outs = self.block(st.orelse, body, brk, cont) if st.orelse else body
             # an exception may leave the protected body after any of its statements: model as edge from the try node and
-            # from every node of the body
+            # from every node of the body (the else block is not protected)
             body_nodes = [n for n in self.nodes if n.id > tn.id]
+            outs = self.block(st.orelse, body, brk, cont) if st.orelse else body
             for h in st.handlers:
                 hn = self.new('except', stmt=h)
                 self._edge(tn, 'exc', hn)
